@@ -873,6 +873,104 @@ fn run_aggregation_sources(cx: &mut CaseCx, case: &Value) {
   cx.outcome(format!("t={}", t));
 }
 
+/// ONE `MessageGenerator` object used for several measurements in a row (its measurement field `x` is public:
+/// `mg.x = SingleMeasurement::new(next)`): the reports it produces for measurement B - with the randomness it
+/// samples for B - aggregate with the reports of fresh clients of B. (A generator that computes anything at
+/// construction time reports B under A's randomness.)
+fn run_generator_reuse(cx: &mut CaseCx, case: &Value) {
+  use sta_rs::{AssociatedData, MessageGenerator, SingleMeasurement};
+  use star_test_utils::AggregationServer;
+  let t = case["t"].as_u64().unwrap() as u32;
+  let epoch = "epoch";
+  let measurements: Vec<Vec<u8>> = vec![b"first measurement (the generator is constructed with it)".to_vec(), b"second".to_vec(), vec![], prbytes(31, 200), b"second".to_vec(), b"first measurement (the generator is constructed with it)".to_vec()];
+  let mut reused = MessageGenerator::new(SingleMeasurement::new(&measurements[0]), t, epoch.as_bytes());
+  let mut msgs: Vec<Message> = vec![];
+  let mut want: std::collections::BTreeMap<Vec<u8>, Vec<Option<Vec<u8>>>> = Default::default();
+  let mut k = 0u32;
+  for (round, m) in measurements.iter().enumerate() {
+    if round > 0 {
+      reused.x = SingleMeasurement::new(m);
+    }
+    cx.eval();
+    // the randomness the reused generator samples for its CURRENT measurement is the fresh client's
+    let mut r_reused = [0u8; 32];
+    reused.sample_local_randomness(&mut r_reused);
+    let r_fresh = local_randomness(m, epoch.as_bytes(), t);
+    if r_reused != r_fresh {
+      cx.viol("C01/generator-reuse/randomness-differs", format!("a MessageGenerator constructed for one measurement and then given another (mg.x = ...; use {} of the object) samples other local randomness for it than a fresh generator of that measurement: its reports do not meet the other clients' reports", round + 1), json!({"t": t, "use": round + 1, "measurement_len": m.len()}));
+      return;
+    }
+    // sharing material through the other entry point
+    let a = guard(|| reused.share_with_local_randomness().map(|w| (w.key, w.tag)).map_err(|e| e.to_string()));
+    let fresh_mg = MessageGenerator::new(SingleMeasurement::new(m), t, epoch.as_bytes());
+    let b = guard(|| fresh_mg.share_with_local_randomness().map(|w| (w.key, w.tag)).map_err(|e| e.to_string()));
+    if a != b {
+      cx.viol("C01/generator-reuse/sharing-material-differs", format!("share_with_local_randomness of a reused MessageGenerator (use {}) gives another key / tag than a fresh generator of the same measurement", round + 1), json!({"t": t, "use": round + 1}));
+      return;
+    }
+    // one report from the reused generator, t-1 (first visit) or 1 (second visit) from fresh clients
+    k += 1;
+    getrandom::verif::set_group(k);
+    let aux_r = Some(format!("reused generator, use {}", round + 1).into_bytes());
+    match guard(|| Message::generate(&reused, &r_reused, aux_r.as_ref().map(|a| AssociatedData::new(a))).map_err(|e| e.to_string())) {
+      Ok(Ok(msg)) => msgs.push(msg),
+      other => {
+        cx.viol("C01/generate-failed", format!("{:?}", other.err()), json!({"t": t}));
+        return;
+      }
+    }
+    want.entry(m.clone()).or_default().push(aux_r);
+    let fresh_n = if round < 4 { t.saturating_sub(1) } else { 1 };
+    for j in 0..fresh_n {
+      k += 1;
+      getrandom::verif::set_group(k);
+      let aux = if j % 2 == 0 { Some(format!("fresh client {} of round {}", j, round).into_bytes()) } else { None };
+      match gen_report(m, epoch.as_bytes(), t, &r_fresh, &aux) {
+        Ok(msg) => msgs.push(msg),
+        Err(e) => {
+          cx.viol("C01/generate-failed", e, json!({"t": t}));
+          return;
+        }
+      }
+      want.entry(m.clone()).or_default().push(aux);
+    }
+  }
+  let agg = AggregationServer::new(t, epoch);
+  cx.count("states", 1);
+  cx.count("transitions", 1);
+  cx.nontrivial(0x6e00 + t as u64);
+  for rev in [false, true] {
+    let mut batch = msgs.clone();
+    if rev {
+      batch.reverse();
+    }
+    cx.eval();
+    let out = match guard(|| agg.retrieve_outputs(&batch)) {
+      Ok(o) => o,
+      Err(p) => {
+        cx.viol("C01/generator-reuse/server-panicked", format!("the reference aggregation side panics on a batch that contains reports of a reused MessageGenerator: {}", p.chars().take(160).collect::<String>()), json!({"t": t, "reversed": rev}));
+        return;
+      }
+    };
+    for (m, auxs) in &want {
+      if auxs.len() < t as usize {
+        continue;
+      }
+      let found: Vec<_> = out.iter().filter(|o| o.x.as_vec() == *m).collect();
+      let mut w: Vec<Option<Vec<u8>>> = auxs.clone();
+      w.sort();
+      let mut got: Vec<Option<Vec<u8>>> = found.iter().flat_map(|o| o.aux.iter().map(|a| a.as_ref().map(|d| d.as_vec()).filter(|v| !v.is_empty()))).collect();
+      got.sort();
+      if found.len() != 1 || got != w {
+        cx.viol("C01/generator-reuse/not-revealed", format!("a measurement reported by {} >= t = {} clients, one or two of them through a MessageGenerator object that had been used for another measurement before, is revealed {} times with {} of {} associated data", auxs.len(), t, found.len(), got.len(), w.len()), json!({"t": t, "reversed": rev, "measurement_len": m.len()}));
+        return;
+      }
+      cx.count("reuse_groups_revealed", 1);
+    }
+  }
+  cx.outcome(format!("generator reuse t={}", t));
+}
+
 /// boundary search on the tag: measurements whose tag has a 0x00 / 0xff first or last byte, aggregated by the
 /// reference aggregation server (the "aggregation side" of the repository) - they must be revealed like any other
 fn run_boundary_tags(cx: &mut CaseCx, case: &Value) {
@@ -1141,6 +1239,13 @@ pub fn spec() -> PropSpec {
         gen: |_| [1u64, 2, 3].iter().map(|t| json!({"t": t})).collect(),
         run: run_aggregation_sources,
         min_counts: &[("source_groups_revealed", 9)],
+      },
+      Check {
+        name: "generator-reuse",
+        rule: "ONE MessageGenerator object (t in {1,2,3,5}) taken through 6 measurements in a row by assigning its public field x (A, B, empty, 200 bytes, B again, A again): at every use its sampled local randomness and its share_with_local_randomness key / tag equal a fresh generator's, and its report joins t-1 (later visits: 1) reports of fresh clients: the reference aggregation side (forwards / reversed) reveals every measurement with >= t reports once, with all associated data",
+        gen: |_| [1u64, 2, 3, 5].iter().map(|t| json!({"t": t})).collect(),
+        run: run_generator_reuse,
+        min_counts: &[("reuse_groups_revealed", 24)],
       },
       Check {
         name: "boundary-tags",
